@@ -11,6 +11,10 @@ The property quantifies over all programs; its anchored mechanism is decided str
  c R-READD: in every Constraint::run the unconditional fallback ("not enough information") re-adds
    the constraint itself; returning the state without the constraint is only possible under a
    guard (a decided case).
+ (round 4, shared) sound outer bounds of the arithmetic propagators (with C17): over-narrowing
+   loses answers only when the propagator runs before its operands are pinned, i.e. by posting order;
+   fixpoint / re-examination of run_constraints (with C16); diseq re-check threads its state and the
+   normalisation predicate's default (with C02).
 """
 import hirwalk
 import streams
@@ -240,3 +244,9 @@ def run(ctx, fb, cfg):
     if "clpfd" in FEATURES_OF.get(cfg, {"clpfd"}):
         # a binary-searched list of seen values must stay sorted whatever order the values arrive in
         fdrules.check_sorted_search(ctx, lib, R + "K2.sorted-search")
+        # narrowing is permanent: a propagator that prunes more than the sound outer bound loses answers only
+        # when it runs *before* its operands are pinned, i.e. depending on posting order - shared with C17
+        for mod in ("plusfd", "minusfd", "timesfd"):
+            fdrules.check_arith_propagator(ctx, lib, R + "K7c.sound-bounds", mod, what="bounds")
+        # the fixpoint of run_constraints (a constraint that binds its own operand is re-examined) - shared with C16
+        fdrules.check_restale(ctx, lib, R + "K2K3.re-examination")
